@@ -90,7 +90,8 @@ def run(tier):
     rep = Report("C17", tier)
     r = vlib.run_mc("MC_Compact", workers=4)
     rep.add_mc("MC_Compact", r)
-    recs = drive(tier)
+    recs, nsecond, ndiff = vlib.second_pass(drive, tier)
+    rep.cov["second_pass_calls"], rep.cov["second_pass_differing"] = nsecond, ndiff
     mm = vlib.validate("Trace_Compact", recs)
     rep.apply_mismatches(recs, mm)
     nchain = chainhist.run_for(rep, "C17", tier)
